@@ -122,3 +122,4 @@ def check(ctx):
     shared.mutex_cancel_arm_rules(ctx)
     ctx.import_rules("C02", r"^(sync-blocker|blocker|fast-blocker|thread-park)/")
     ctx.import_rules("C03", r"^mpsc/block-start/|^mpsc/none-only-if-empty")
+    shared.handoff_not_recursive(ctx, "may::sync::mutex")
